@@ -120,7 +120,7 @@ def gradient_index_obligation(vtypes):
 
 def run(run_, pkg, tier):
     from .. import optim_rules
-    from ..assembly import SCENARIOS, assembly_obligation
+    from ..assembly import SCENARIOS, SEQUENCES, assembly_obligation, sequence_obligation
     run_.explanation = ("a: BaseEdge.calc_chi2_gradient_hessian is translated for generic unary/binary/ternary edges with symbolic error, "
                         "full symbolic information and symbolic Jacobians: it returns exactly {(g_k, e^T W J_k)} and {((g_i,g_j), "
                         "J_i^T W J_j), i<=j}; b/c: the accumulator (reduce over _Chi2GradientHessian.update) and the dense-gradient / "
@@ -141,6 +141,10 @@ def run(run_, pkg, tier):
         key = "C03-bc/assembly/%s" % scn.name
         if run_.wants(key):
             tasks.append((key, "C03-bc-assembly", assembly_obligation(scn), "%s:%d" % (fn._gs_module, fn.lineno)))
+    for first, second in SEQUENCES:
+        key = "C03-bc/assembly-sequence/%s->%s" % (first.name, second.name)
+        if run_.wants(key):
+            tasks.append((key, "C03-bc-assembly-history-independent", sequence_obligation(first, second), "%s:%d" % (fn._gs_module, fn.lineno)))
     ifn = pkg.method("Graph", "_initialize")
     for vt in (["PoseR2", "PoseSE2", "PoseSE3", "PoseR3"], ["PoseSE3", "PoseR2"], ["PoseSE2"]):
         key = "C03-e/gradient-index/%s" % "+".join(vt)
